@@ -409,3 +409,10 @@ Definition fref_ptr_spec (v : Z) : list Z * list bool :=
    delivered as lvalues / xvalues), [func.wrap.func.con] (the target is direct-initialised with std::forward<F>(f)),
    [tuple.creation], [tuple.apply] for the eleven expressions of op xfer *)
 Definition xfer_spec : list Z := [10; 1; 11; 2; 10; 1; 10; 1; 1; 2; 2].
+
+(* [tuple.cnstr]/[pairs.pair]: each element is initialised with std::forward<U>(u), i.e. T(u): vector<int>(k) has k elements,
+   long(n + 0.5) truncates towards zero *)
+Definition tuple_init_spec (n : Z) : list Z :=
+  let k := Z.abs n mod 9 in
+  let tr := Z.quot (2 * n + 1) 2 in
+  [k; k; tr; k; tr].
